@@ -1,8 +1,35 @@
 (* C15 - Stores never lose an update; watchers never miss the latest state.
-   Statements only; proofs live in Proofs/StoreProofs.v, Proofs/WatchProofs.v, Proofs/WatchBounded.v. *)
+   Statements only; proofs live in Proofs/CasStoreProofs.v, Proofs/WatchProofs.v, Proofs/WatchBounded.v,
+   Proofs/WatchInv.v (unbounded invariant of the watch system), Proofs/WatchLive.v (quiescence is always reachable).
+
+   What is proved:
+   * store half (unbounded, all histories): C15_cas, C15_versions_grow, C15_accepted_write_fresh_version,
+     C15_index_never_reused, C15_refines_cas, C15_refused_write_changes_nothing_partial (+ the two _refuted witnesses
+     F-08 / v3 aliasing);
+   * watch half, UNBOUNDED (induction over every schedule of any length from the initial world, any number of writes,
+     records and watchers, with / without replay, all records / one record, repaired AND unrepaired cancel path):
+       C15_watch_latest            watch_ok in every reachable world;
+       C15_watch_latest_explicit   the same spelled out: quiescent -> every watcher that is not cancelled was last shown,
+                                   for every record it is entitled to, the current version;
+       C15_watch_never_loses       at EVERY moment: delivered ++ pending in the goroutine ++ pending in the loop for it
+                                   ++ Atomix event stream ends, per entitled record, with the current version;
+       C15_watch_swapped_order_refuted  the swapped order (snapshot before registration) loses an update;
+       C15_watch_latest_partial    the older bounded exploration (kept; superseded by C15_watch_latest);
+   * cancel isolation, UNBOUNDED, repaired model (fixed = true = the code of /repo after 23bac70 / d4508c1):
+       C15_cancel_isolated         from EVERY reachable world the loop and goroutine steps alone (no write / open /
+                                   cancel) reach a quiescent world with the same store where every watcher that is
+                                   not cancelled is served: a cancelled watcher never parks the loop;
+       C15_no_dead_listener        safety form: no goroutine is ever gone without a drainer (WStuck unreachable) and
+                                   the listener the loop waits for exists and takes the event once in its select / drained;
+       C15_cancel_isolated_partial, C15_drained_listener_never_blocks  the older one-step statements (kept);
+       C15_cancel_isolated_refuted the code BEFORE the repair (fixed = false): parked for ever (F-10).
+   (Proofs/CasStoreProofs.v is this property's store proof file under a new name: Proofs/StoreProofs.v now belongs to
+   C03's configuration-store write and no longer contains these lemmas.)
+   Nothing of the watch half remains partial with respect to the model; what the model abstracts is listed in the
+   manifest note (one loop for the v3 multi-log loops, consumer always willing to receive). *)
 From Coq Require Import List NArith Bool.
 From OC Require Import Base.Bytes Model.Atomix Model.Store Model.Watch Spec.Cas
-  Proofs.StoreProofs Proofs.WatchProofs Proofs.WatchBounded.
+  Proofs.CasStoreProofs Proofs.WatchProofs Proofs.WatchBounded Proofs.WatchInv Proofs.WatchLive.
 Import ListNotations.
 Open Scope N_scope.
 
@@ -81,11 +108,53 @@ Theorem C15_v3_values_aliased_refuted :
 Proof. exact v3_values_aliased_refuted. Qed.
 Print Assumptions C15_v3_values_aliased_refuted.
 
-(* PARTIAL (bounded): for every interleaving of up to 7 / 8 / 6 steps of writes with the steps of Watch, event loop,
-   watcher and cancellation, at quiescence every open watcher was last shown the current version of every record
-   it is entitled to - with replay / without, all records / one record, repaired and unrepaired cancel path.
-   Missing for the full statement: the inductive invariant over unbounded schedules (last event of
-   delivered ++ in-flight stream = current version), which is not proved here. *)
+(* UNBOUNDED: for EVERY schedule (any length, any interleaving of any number of writes with the steps of any number
+   of Watch calls - with replay / without, all records / one record -, of the event loop, the goroutines and
+   cancellations; repaired and unrepaired cancel path), whenever the reached world is quiescent (event stream empty,
+   loop idle, every watcher that is not cancelled back in its select) every such watcher was last shown the current
+   version of every record it is entitled to *)
+Theorem C15_watch_latest : forall fixed ls, watch_ok (wrun fixed false w0 ls) = true.
+Proof. exact watch_latest. Qed.
+Print Assumptions C15_watch_latest.
+
+(* the same with watch_ok spelled out *)
+Theorem C15_watch_latest_explicit : forall fixed ls,
+  let g := wrun fixed false w0 ls in
+  quiescent g = true ->
+  forall w, In w (g_ws g) -> w_cancelled w = false ->
+  forall k v, In (k, v) (g_store g) -> entitled w g k = true -> last_for k (w_delivered w) = Some v.
+Proof. exact watch_latest_explicit. Qed.
+Print Assumptions C15_watch_latest_explicit.
+
+(* the inductive invariant behind it, true at EVERY moment of every schedule: for a watcher that is not cancelled and
+   has taken its replay snapshot (or needs none), what it was shown ++ what its goroutine still holds (rest of the
+   replay / event being forwarded) ++ the event the loop still has to hand to it ++ the Atomix event stream ends,
+   for every record it is entitled to, with the CURRENT version: the latest state is delivered or on its way, never lost *)
+Theorem C15_watch_never_loses : forall fixed ls,
+  let g := wrun fixed false w0 ls in
+  forall w, In w (g_ws g) -> w_cancelled w = false -> w_phase w <> WReg ->
+  forall k v, In (k, v) (g_store g) -> entitled w g k = true ->
+  last_for k (stream (g_queue g) (g_loop g) w) = Some v.
+Proof. exact watch_never_loses. Qed.
+Print Assumptions C15_watch_never_loses.
+
+(* the statements are not vacuous: a quiescent reachable world with two records, a replaying all-records watcher
+   and a live one-record watcher, both with deliveries *)
+Theorem C15_watch_latest_nonvacuous :
+  let g := wrun true false w0 nontrivial_schedule in
+  quiescent g = true /\
+  g_store g = [(0, 1); (1, 3)] /\
+  map (fun w => (w_id w, w_cancelled w, w_delivered w)) (g_ws g) =
+    [(1, false, [{| ev_key := 0; ev_ver := 1 |}; {| ev_key := 1; ev_ver := 3 |}; {| ev_key := 0; ev_ver := 1 |};
+                 {| ev_key := 1; ev_ver := 2 |}; {| ev_key := 1; ev_ver := 3 |}]);
+     (2, false, [{| ev_key := 1; ev_ver := 2 |}; {| ev_key := 1; ev_ver := 3 |}])].
+Proof. exact watch_latest_nontrivial. Qed.
+Print Assumptions C15_watch_latest_nonvacuous.
+
+(* BOUNDED, superseded by C15_watch_latest (kept): for every interleaving of up to 7 / 8 / 6 steps of writes with the
+   steps of Watch, event loop, watcher and cancellation, at quiescence every open watcher was last shown the current
+   version of every record it is entitled to - checked by exhaustive exploration inside Coq.  Nothing is missing any
+   more: the inductive invariant over unbounded schedules is C15_watch_never_loses. *)
 Theorem C15_watch_latest_partial :
   forallb watch_ok (explore true alphabet_replay_all 7 w0) = true /\
   forallb watch_ok (explore true alphabet_replay_one 7 w0) = true /\
@@ -102,7 +171,34 @@ Theorem C15_watch_swapped_order_refuted :
 Proof. exact swapped_order_misses_update. Qed.
 Print Assumptions C15_watch_swapped_order_refuted.
 
-(* cancelling touches neither the store, nor the event stream, nor the loop, nor any other watcher ... *)
+(* UNBOUNDED, repaired code (fixed = true): a cancelled watcher never blocks the event loop.  From EVERY reachable
+   world - any number of watchers cancelled at any point of their replay, select or send - there is a schedule of
+   loop and goroutine steps only (no write, no open, no cancel needed) that reaches a quiescent world with the same
+   store and clock, in which every watcher that is not cancelled was last shown the current version of every record
+   it is entitled to.  (For the code before the repair the opposite holds: C15_cancel_isolated_refuted.) *)
+Theorem C15_cancel_isolated : forall ls,
+  let g := wrun true false w0 ls in
+  exists ls', forallb internal ls' = true /\
+    let g' := wrun true false g ls' in
+    quiescent g' = true /\ g_store g' = g_store g /\ g_clock g' = g_clock g /\
+    forall w, In w (g_ws g') -> w_cancelled w = false ->
+    forall k v, In (k, v) (g_store g') -> entitled w g' k = true -> last_for k (w_delivered w) = Some v.
+Proof. exact cancel_isolated. Qed.
+Print Assumptions C15_cancel_isolated.
+
+(* safety form: in the repaired model no goroutine has ever gone without leaving a drainer (WStuck is unreachable),
+   and the listener the loop is waiting for always exists and, once in its select or drained, takes the event *)
+Theorem C15_no_dead_listener : forall ls,
+  let g := wrun true false w0 ls in
+  (forall w, In w (g_ws g) -> w_phase w <> WStuck) /\
+  (forall e id rest, g_loop g = LSend e (id :: rest) ->
+     exists w, find_w id (g_ws g) = Some w /\ w_phase w <> WStuck /\
+       (stable (w_phase w) = true -> g_loop (wstep true false g SSend) = after_targets e rest)).
+Proof. exact no_dead_listener. Qed.
+Print Assumptions C15_no_dead_listener.
+
+(* one-step statements, superseded by C15_cancel_isolated (kept):
+   cancelling touches neither the store, nor the event stream, nor the loop, nor any other watcher ... *)
 Theorem C15_cancel_isolated_partial : forall fixed g id l, l = SCancel id \/ l = SClose id ->
   let g' := wstep fixed false g l in
   g_store g' = g_store g /\ g_clock g' = g_clock g /\ g_queue g' = g_queue g /\ g_loop g' = g_loop g /\
